@@ -275,6 +275,40 @@ def ob_uncalled_in_expr(kind: int, payload: str) -> bool:
     return out == 'abc' and seen == [True, True] and log == []
 
 
+class CO:
+    def __init__(self, **kw):
+        self.__dict__.update(kw)
+
+
+T_SUBCALL = cooked('<dtml-var x>|<dtml-let x=inner><dtml-var "sub(cl, _%s)">[<dtml-var x>]</dtml-let>|<dtml-var x>|<dtml-var sub>|<dtml-var x>' % '')
+T_SUBCALL_KW = cooked('<dtml-var x>|<dtml-let x=inner><dtml-var "sub(cl, _, x=kwx)">[<dtml-var x>]</dtml-let>|<dtml-var x>')
+T_SUB2 = HTML('{<dtml-var x>,<dtml-var own>}', own='subdefault')
+T_SUB2.cook()
+
+
+def ob_subtemplate_scoping(ntup: int, c1x: bool, c2x: bool, kw: bool) -> bool:
+    """a template invoked from an expression with a client (single object, 1-, 2- or 3-tuple) and the caller's namespace sees
+    the documented precedence inside, and EVERYTHING it pushed is gone afterwards: the caller's let-binding and outer
+    binding show through again"""
+    o1 = CO(**({'x': 'c1'} if c1x else {}))
+    o2 = CO(**({'x': 'c2'} if c2x else {}))
+    o3 = CO()
+    if ntup == 0:
+        cl = o2
+    elif ntup == 1:
+        cl = (o2,)
+    elif ntup == 2:
+        cl = (o1, o2)
+    else:
+        cl = (o3, o1, o2)
+    inside = 'c2' if c2x else ('c1' if (c1x and ntup >= 2) else 'let')
+    if kw:
+        out = T_SUBCALL_KW(x='outer', inner='let', sub=T_SUB2, cl=cl, kwx='kw')
+        return out == 'outer|{kw,subdefault}[let]|outer'
+    out = T_SUBCALL(x='outer', inner='let', sub=T_SUB2, cl=cl)
+    return out == 'outer|{%s,subdefault}[let]|outer|{outer,subdefault}|outer' % inside
+
+
 OBLIGATIONS = [
     Ob('six_sources_tuple_client', ob_six_tuple, [], timeout=tier(100, 300), data='7 bools: kw, var, client2, client1, call mapping, construction kw, construction mapping define x',
        selectors='<dtml-var x>, client passed as a 2-tuple'),
@@ -289,6 +323,8 @@ OBLIGATIONS = [
     Ob('uncalled_in_expr', ob_uncalled_in_expr, ['0 <= kind <= 2', 'len(payload) <= 2'], timeout=tier(100, 300),
        data='payload str len <= 2; kind', selectors='<dtml-var "rec(f)">, <dtml-if "rec(f)">'),
 ]
+OBLIGATIONS.append(Ob('subtemplate_scoping', ob_subtemplate_scoping, ['0 <= ntup <= 3'], timeout=tier(150, 400), data='client shape (object, 1-/2-/3-tuple), which clients define x, keyword argument bit',
+                      selectors='sub-template called from an expression inside a let block; bindings after the call'))
 for _k in NEST:
     OBLIGATIONS.append(Ob('nest_' + _k, make_nest(_k), [] if NEST[_k][2] else ['not bc'], timeout=tier(100, 300),
                           data='bools: outer x defined, block A binds x, block B binds x' + (', block C binds x' if NEST[_k][2] else ''),
